@@ -26,13 +26,12 @@ def veneerInitial : List (String × GVal) :=
    ("simulatorFactory", .none)]
 
 /-- `with veneer.executeIn*(…)` blocks whose body yields (held open by a suspended generator) -/
-def veneerSuspended : List String := ["executeInBehavior"]
--- executeInBehavior in src/scenic/core/dynamics/behaviors.py:_invokeInner
+def veneerSuspended : List String := []
 
 def simTables : Tables :=
   { initial := veneerInitial,
     openWrites := ["currentSimulation", "currentScenario", "runningScenarios", "inInitialScenario", "_globalParameters", "mode2D", "Point", "OrientedPoint", "Object"],
-    closeResets := [("currentSimulation", .none), ("currentScenario", .none), ("runningScenarios", .empty), ("currentBehavior", .none), ("_globalParameters", .empty), ("mode2D", .false_), ("Point", .orig), ("OrientedPoint", .orig), ("Object", .orig)],
+    closeResets := [("currentSimulation", .none), ("currentScenario", .none), ("runningScenarios", .empty), ("currentBehavior", .none), ("inInitialScenario", .true_), ("_globalParameters", .empty), ("mode2D", .false_), ("Point", .orig), ("OrientedPoint", .orig), ("Object", .orig)],
     plains := [("finishScenarioSetup", ["inInitialScenario"]), ("startScenario", ["runningScenarios"]), ("endScenario", ["runningScenarios"])],
     cms := [{ name := "executeInRequirement", writes := ["evaluatingRequirement", "currentScenario"], restores := [("evaluatingRequirement", Restore.const .false_), ("currentScenario", Restore.saved)] },
             { name := "executeInScenario", writes := ["currentScenario", "_globalParameters"], restores := [("currentScenario", Restore.saved), ("_globalParameters", Restore.saved)] },
@@ -44,7 +43,7 @@ def simTables : Tables :=
 def compileTables : Tables :=
   { initial := veneerInitial,
     openWrites := ["_globalParameters", "lockedParameters", "lockedModel", "mode2D", "Point", "OrientedPoint", "Object", "activity", "scenarioStack", "currentScenario"],
-    closeResets := [("activity", .zero), ("scenarioStack", .empty), ("scenarios", .empty), ("lockedParameters", .empty), ("lockedModel", .none), ("currentScenario", .none), ("simulatorFactory", .none), ("_globalParameters", .empty), ("mode2D", .false_), ("Point", .orig), ("OrientedPoint", .orig), ("Object", .orig)],
+    closeResets := [("activity", .zero), ("scenarioStack", .empty), ("scenarios", .empty), ("lockedParameters", .empty), ("lockedModel", .none), ("currentScenario", .none), ("simulatorFactory", .none), ("_globalParameters", .empty), ("inInitialScenario", .true_), ("mode2D", .false_), ("Point", .orig), ("OrientedPoint", .orig), ("Object", .orig)],
     plains := [("finishScenarioSetup", ["inInitialScenario"]), ("registerDynamicScenarioClass", ["scenarios"]), ("simulator", ["simulatorFactory"]), ("param", ["_globalParameters"])],
     cms := [{ name := "executeInRequirement", writes := ["evaluatingRequirement", "currentScenario"], restores := [("evaluatingRequirement", Restore.const .false_), ("currentScenario", Restore.saved)] },
             { name := "executeInScenario", writes := ["currentScenario", "_globalParameters"], restores := [("currentScenario", Restore.saved), ("_globalParameters", Restore.saved)] },
